@@ -549,6 +549,11 @@ def units(tier, seed):
                         target="none"), split=6,
                    witnesses=("returned", "first-chip-merged"),
                    path_timeout_s=300, timeout_ms=300000))
+    # five entries with concrete masks (keys symbolic under them): a merge of
+    # three entries that the down-check prunes, after which the smaller
+    # merged entry lands above an entry of intermediate generality
+    add("oc_raw", 5, 5, "ABAAB", "uuuuu", "sorted", "none", split=8,
+        masks=(31, 21, 22, 19, 1), wit=("returned", "shrunk"))
     # one inductive merge step from an arbitrary state satisfying the
     # invariant (alias shapes that whole runs only reach on larger tables)
     def step(W, routes, srcs, nal, split=6):
